@@ -7,6 +7,7 @@ import DisjointImpls.Match
 import DisjointImpls.RevSub
 import DisjointImpls.Key
 import DisjointImpls.Bounds
+import DisjointImpls.Validate
 import DisjointImpls.Lemmas.MatchSound
 import DisjointImpls.Lemmas.RevSubLemmas
 open DI
@@ -21,7 +22,20 @@ def b3ToSx : B3 → Sx
 
 def boolSx (b : Bool) : Sx := .sym (if b then "1" else "0")
 
+def handleValidate (args : List Sx) : Sx :=
+  match args with
+  | tr :: fams =>
+      let trait_ := T.ofSx tr
+      let families := fams.map (fun f => match f with
+        | .list (.sym "fam" :: items) => items.filterMap T.ofSx
+        | _ => [])
+      match validateAll trait_ families with
+      | .ok () => .list [.sym "ok"]
+      | .error d => .list [.sym "error", .str d.message]
+  | _ => .list [.sym "bad-args"]
+
 def handle (cmd : String) (args : List Sx) : Sx :=
+  if cmd == "validate" then handleValidate args else
   match cmd, args.filterMap T.ofSx with
   | "sup", [a, b] => rToSx (sup a b)
   | "supchk", [a, b] =>
